@@ -82,6 +82,20 @@ fn pn_expand_exact() {
     assert!(got == n, "expanded packet number differs from the one sent");
 }
 
+// @harness pn_expand_bounded props=C03,C10 tier=quick kind=proof fn="PacketNumber::expand" desc="for every width, every truncated value a peer can put on the wire and every receiver expectation below 2^62: the expanded packet number is below 2^62 (RFC 9000 A.3: the window is never moved past the end of the packet-number space), so acknowledging it cannot overflow a varint"
+#[cfg_attr(kani, kani::proof)]
+#[cfg_attr(verif_replay, test)]
+fn pn_expand_bounded() {
+    let expected: u64 = vk::any();
+    let len: usize = vk::any();
+    let x: u64 = vk::any();
+    vk::assume(len >= 1 && len <= 4 && expected < (1u64 << 62));
+    let win = 1u64 << (8 * len);
+    vk::assume(x < win);
+    let got = pn_of(len, x).expand(expected);
+    assert!(got < (1u64 << 62), "expanded packet number outside the packet-number space");
+}
+
 /// Mock header-protection key with the slicing behaviour of the real rustls implementation (crypto/rustls.rs): it reads a
 /// 16-byte sample starting 4 bytes after the packet-number offset and rewrites the first byte and up to 4 packet-number bytes.
 struct MockHeaderKey;
